@@ -122,9 +122,10 @@ IsoDateVal(s) == Date(DigitsVal(SubSeq(s, 1, 4)), DigitsVal(SubSeq(s, 6, 7)),
 (* "plain" text: certainly neither a number nor a date for any parser:     *)
 (* non-empty, letters a-z / A-Z only is too weak (month names, "inf",      *)
 (* "nan", "e"), so plain text is text containing a character from          *)
-(* {# ! ? _ = } or starting with "zz"/"qq".                                *)
+(* {# ! ? _ = % $ @ ~ ^ |} (no numeral and no date notation uses them; the   *)
+(* date reader was probed with each) or starting with "zz"/"qq".            *)
 TextIsPlain(s) ==
-  \/ \E i \in 1..Len(s) : s[i] \in {35, 33, 63, 95, 61}
+  \/ \E i \in 1..Len(s) : s[i] \in {35, 33, 63, 95, 61, 37, 36, 64, 126, 94, 124}
   \/ (Len(s) >= 2 /\ s[1] = s[2] /\ s[1] \in {122, 113})
 
 (* Operand classes: "num" (acts through a rational), "date", "text" (other *)
